@@ -179,6 +179,73 @@ inline void check_const_struct_pointee(const Variable *pointee) {
 }
 
 /**
+ * 式 q.inner / q.a.inner / qs[i].inner ... が、const と宣言された（ポインタで
+ * ない）メンバー (struct Q { const P inner; }) またはその一部を指すかどうか。
+ * そのようなメンバーの中のメンバー q.inner.x も const オブジェクトの一部。
+ */
+inline bool is_part_of_const_member(Interpreter &interpreter,
+                                    const ASTNode *expr) {
+    for (const ASTNode *link = expr; link && link->left;
+         link = link->left.get()) {
+        if (link->node_type == ASTNodeType::AST_MEMBER_ACCESS ||
+            link->node_type == ASTNodeType::AST_ARROW_ACCESS) {
+            const StructMember *member =
+                declared_struct_member(interpreter, link);
+            if (member && member->is_const && !member->is_pointer) {
+                return true;
+            }
+            if (link->node_type == ASTNodeType::AST_ARROW_ACCESS) {
+                break; // p->m: m は *p の一部で、p を含む構造体の一部ではない
+            }
+        } else if (link->node_type != ASTNodeType::AST_ARRAY_REF) {
+            break;
+        }
+    }
+    return false;
+}
+
+/**
+ * 構造体全体への代入 r = o / r = f() は r のすべてのメンバーへの代入でもある。
+ * const と宣言されたメンバー (struct R { const int id; int v; }) が初期化済み
+ * なら、r.id = v と同じく拒否する。未初期化なら、この代入がその初期化になる。
+ * ネストした構造体メンバーの中の const メンバーも同じ。
+ * name: 代入先の変数名（個別変数 "name.member" の確認とエラーメッセージ用）
+ */
+inline void check_struct_store_over_const_members(Interpreter &interpreter,
+                                                  const std::string &name,
+                                                  const Variable &target) {
+    if (!target.is_struct || target.struct_type_name.empty()) {
+        return;
+    }
+    const StructDefinition *struct_def = interpreter.find_struct_definition(
+        interpreter.get_type_manager()->resolve_typedef(
+            target.struct_type_name));
+    if (!struct_def) {
+        return;
+    }
+    for (const auto &member : struct_def->members) {
+        const std::string member_path = name + "." + member.name;
+        auto cell = target.struct_members.find(member.name);
+        const bool has_cell = cell != target.struct_members.end();
+        if (member.is_const && !member.is_pointer) {
+            // （const T* p; は指し先が const のポインタで、p 自体は対象外）
+            const Variable *direct = interpreter.find_variable(member_path);
+            if ((has_cell && cell->second.is_assigned) ||
+                (direct && direct->is_assigned)) {
+                throw std::runtime_error(
+                    "Cannot assign to struct '" + name +
+                    "': const member '" + member_path +
+                    "' is already initialized");
+            }
+        } else if (has_cell && cell->second.is_struct &&
+                   !cell->second.is_array && !member.is_pointer) {
+            check_struct_store_over_const_members(interpreter, member_path,
+                                                  cell->second);
+        }
+    }
+}
+
+/**
  * constポインタ自体への再代入をチェック
  * T* const ptr の場合、ptr = ... を禁止する
  */
